@@ -259,7 +259,11 @@ CHECKS["C16"] = dict(
                 "key) are rendered by ConsoleWriter under random PartsOrder/PartsExclude/FieldsOrder/FieldsExclude/TimeFormat/TimeLocation/"
                 "TimeFieldFormat configurations and compared byte for byte with an independent renderer of the statement (strings verbatim or "
                 "strconv.Quote'd, numbers with their exact digits, other values parsed back and compared semantically); (n, err) and determinism of two "
-                "renderings are checked too."),
+                "renderings are checked too. The event's instant is drawn from 1840-2100 plus edges (epoch, second before it, exact seconds, midnights), "
+                "the timestamp / level / message field names are customised in a quarter of the programs each, PartsOrder may be empty (not nil), "
+                "PartsExclude has up to three entries, zone-less TimeFieldFormats are used where TimeLocation is UTC, half of the writers are built by "
+                "NewConsoleWriter with an option; for events without a standard level (Log(), Write, custom levels) the level part is excluded - its "
+                "rendering is not specified - and everything else is still compared."),
     technique="runtime monitoring: independent reference renderer compared with ConsoleWriter output over seeded events x configurations",
     stages=lambda tier: [dict(variant="vh", cmd="c16", shards=16, timeout=3000, env={"TZ": "UTC"})],
     rule=("one case = one seeded program's events x one random console configuration, each event rendered twice; non-trivial = at least one rendering "
